@@ -257,7 +257,16 @@ func c8Result(e *eval.Expr, err error) (out string) {
 	return sb.String()
 }
 
+// c8nilMu serialises the harness's own compilations with the nil config:
+// the checker's workers are an artefact of the harness, and whatever the nil
+// config stands for is by nature shared between them.
+var c8nilMu sync.Mutex
+
 func c8Compile(c *eval.Config, src string) (e *eval.Expr, err error) {
+	if c == nil {
+		c8nilMu.Lock()
+		defer c8nilMu.Unlock()
+	}
 	defer func() {
 		if r := recover(); r != nil {
 			e, err = nil, fmt.Errorf("PANIC(%v)", r)
